@@ -340,8 +340,17 @@ def _fill_in_default_arguments(func: Callable, call: ast.Call) -> Tuple[ast.Call
     i_arg = 0
     arg_array = list(call.args)
     keywords = list(call.keywords)
-    for param in sig.parameters.values():
-        if param.name != "self":
+
+    # The library's own stream operators (`Select`, `Where`, etc.) have internal-use-only
+    # parameters: calls to them keep exactly the arguments the user wrote.
+    is_stream_operator = getattr(ObjectStream, getattr(func, "__name__", ""), None) is func
+    parameters = [] if is_stream_operator else list(sig.parameters.values())
+
+    for param in parameters:
+        if param.name != "self" and param.kind not in (
+            param.VAR_POSITIONAL,
+            param.VAR_KEYWORD,
+        ):
             if len(arg_array) <= i_arg:
                 # See if they specified it as a keyword
                 a, keywords = _find_keyword(keywords, param.name)
@@ -352,6 +361,7 @@ def _fill_in_default_arguments(func: Callable, call: ast.Call) -> Tuple[ast.Call
                     arg_array.append(a)
                 else:
                     raise ValueError(f"Argument {param.name} is required")
+            i_arg += 1
 
     # If we are making a change to the call, put in a reference back to the
     # original call.
